@@ -252,7 +252,9 @@ class Gram:
         if k == "throw":
             return par("%{" + n["lab"] + "}")
         if k == "recover":
-            return par(self.render(n["kids"][0], 0) + " //{" + ", ".join(n["labs"]) + "} " + self.render(n["kids"][1], 0))
+            # e //{A} r1 //{B} r2 is (e //{A} r1) //{B} r2: half of the groups spell a left-nested operator as a chain
+            chain = self.N(n["kids"][0])["k"] == "recover" and self.gi % 2 == 0
+            return par(self.render(n["kids"][0], -1 if chain else 0) + " //{" + ", ".join(n["labs"]) + "} " + self.render(n["kids"][1], 0))
         raise ValueError(k)
 
     def render_rules(self):
